@@ -1,0 +1,139 @@
+//go:build verif
+
+package decorator
+
+import (
+	"fmt"
+	"go/ast"
+	"strings"
+)
+
+// VerifHook, when set, receives observations from the instrumented points of the decorator. It
+// only exists in builds with the verif tag.
+var VerifHook func(ev string, data interface{})
+
+// VerifFragment is the exported view of one fragment of the decorator's fragment list.
+type VerifFragment struct {
+	K       string `json:"k"`      // dec, tok, str, bad, com, nl
+	Node    int    `json:"node"`   // node number (order of first appearance), 0 for com / nl
+	Name    string `json:"name"`   // decoration point name
+	Text    string `json:"text"`   // comment text
+	Line    bool   `json:"line"`   // comment is a // comment
+	Empty   bool   `json:"empty"`  // newline fragment is an empty line
+	Indent  int    `json:"indent"` // comment indent
+	Pos     int    `json:"pos"`
+	SD      bool   `json:"sd"`     // node is a Stmt or a Decl
+	Labeled bool   `json:"lab"`    // node is a LabeledStmt
+	Clause  bool   `json:"clause"` // node is a CaseClause or CommClause
+	SI      int    `json:"si"`     // start indent of the node
+	EI      int    `json:"ei"`     // end indent of the node
+	Type    string `json:"type"`
+}
+
+// VerifLinked is the result of link(): decorations per (node, point), spacing per node.
+type VerifLinked struct {
+	Decs   []VerifDec   `json:"decs"`
+	Before map[int]int  `json:"-"`
+	After  map[int]int  `json:"-"`
+	Spaces []VerifSpace `json:"spaces"`
+}
+
+type VerifDec struct {
+	Node int      `json:"node"`
+	Name string   `json:"name"`
+	D    []string `json:"d"`
+}
+
+type VerifSpace struct {
+	Node   int `json:"node"`
+	Before int `json:"b"`
+	After  int `json:"a"`
+}
+
+func (f *fileDecorator) verifNumbering() map[ast.Node]int {
+	ids := map[ast.Node]int{}
+	for _, fr := range f.fragments {
+		var n ast.Node
+		switch fr := fr.(type) {
+		case *decorationFragment:
+			n = fr.Node
+		case *tokenFragment:
+			n = fr.Node
+		case *stringFragment:
+			n = fr.Node
+		case *badFragment:
+			n = fr.Node
+		}
+		if n != nil {
+			if _, ok := ids[n]; !ok {
+				ids[n] = len(ids) + 1
+			}
+		}
+	}
+	return ids
+}
+
+func (f *fileDecorator) verifFragments() {
+	if VerifHook == nil {
+		return
+	}
+	ids := f.verifNumbering()
+	out := make([]VerifFragment, 0, len(f.fragments))
+	for _, fr := range f.fragments {
+		switch fr := fr.(type) {
+		case *decorationFragment:
+			_, stmt := fr.Node.(ast.Stmt)
+			_, decl := fr.Node.(ast.Decl)
+			_, lab := fr.Node.(*ast.LabeledStmt)
+			_, cc := fr.Node.(*ast.CaseClause)
+			_, cm := fr.Node.(*ast.CommClause)
+			out = append(out, VerifFragment{K: "dec", Node: ids[fr.Node], Name: fr.Name, Pos: int(fr.Pos), SD: stmt || decl, Labeled: lab, Clause: cc || cm,
+				SI: f.startIndents[fr.Node], EI: f.endIndents[fr.Node], Type: typeString(fr.Node)})
+		case *tokenFragment:
+			out = append(out, VerifFragment{K: "tok", Node: ids[fr.Node], Text: fr.Token.String(), Pos: int(fr.Pos)})
+		case *stringFragment:
+			out = append(out, VerifFragment{K: "str", Node: ids[fr.Node], Text: fr.String, Pos: int(fr.Pos)})
+		case *badFragment:
+			out = append(out, VerifFragment{K: "bad", Node: ids[fr.Node], Pos: int(fr.Pos)})
+		case *commentFragment:
+			out = append(out, VerifFragment{K: "com", Text: fr.Text, Line: strings.HasPrefix(fr.Text, "//"), Indent: fr.Indent, Pos: int(fr.Pos)})
+		case *newlineFragment:
+			out = append(out, VerifFragment{K: "nl", Empty: fr.Empty, Pos: int(fr.Pos)})
+		}
+	}
+	VerifHook("fragments", out)
+}
+
+func (f *fileDecorator) verifLinked() {
+	if VerifHook == nil {
+		return
+	}
+	ids := f.verifNumbering()
+	var out VerifLinked
+	for _, fr := range f.fragments {
+		d, ok := fr.(*decorationFragment)
+		if !ok {
+			continue
+		}
+		if decs, ok := f.decorations[d.Node]; ok {
+			if list, ok := decs[d.Name]; ok && len(list) > 0 {
+				out.Decs = append(out.Decs, VerifDec{Node: ids[d.Node], Name: d.Name, D: append([]string{}, list...)})
+			}
+		}
+		if d.Name == "Start" {
+			b, a := int(f.before[d.Node]), int(f.after[d.Node])
+			if b != 0 || a != 0 {
+				out.Spaces = append(out.Spaces, VerifSpace{Node: ids[d.Node], Before: b, After: a})
+			}
+		}
+	}
+	VerifHook("linked", out)
+}
+
+func typeString(n ast.Node) string {
+	switch n.(type) {
+	case nil:
+		return ""
+	}
+	return strings.Replace(fmt.Sprintf("%T", n), "*ast.", "", 1)
+}
